@@ -231,7 +231,8 @@ func outputDiscipline(v *Verdict, d *DeclSpec, r *OpResult, label string, argv [
 	}
 	want, other := fd2, fd1
 	wantName, otherName := "standard error", "standard output"
-	if r.Err == "flags.Error" && r.ErrType == "help" {
+	isHelp := (r.Err == "flags.Error" || r.Err == "injected") && r.ErrType == "help"
+	if isHelp {
 		want, other = fd1, fd2
 		wantName, otherName = otherName, wantName
 	}
@@ -243,7 +244,7 @@ func outputDiscipline(v *Verdict, d *DeclSpec, r *OpResult, label string, argv [
 	if faulty {
 		// the descriptor failed: what did arrive must be a prefix of the full text
 		full := string(ref.Fd2)
-		if r.Err == "flags.Error" && r.ErrType == "help" {
+		if isHelp {
 			full = string(ref.Fd1)
 		}
 		if !strings.HasPrefix(full, want) {
@@ -360,7 +361,7 @@ func (propC04) Judge(sc *Scenario) *Verdict {
 			v.fail("c04:untyped-rejection", fmt.Sprintf("a rejection by the parser must be a *flags.Error, got %s %q for argv=%q", r.Err, clip(string(r.Msg), 200), argv))
 		}
 	}
-	if r.Err == "flags.Error" && r.ErrType == "unknown" {
+	if r.Err == "flags.Error" && r.ErrType == "unknown" && r.Injected == 0 {
 		v.fail("c04:untyped-rejection", fmt.Sprintf("the rejection carries ErrUnknown, not a documented type: %q for argv=%q env=%v", clip(string(r.Msg), 200), argv, env))
 	}
 	if !v.OK {
